@@ -35,4 +35,6 @@ def check(repo, res, tier):
     S.check_tau_leap(ctx, res)
     S.check_arity(ctx, res)
     S.check_jump(ctx, res)
+    from ..rules.sweep import gate_call_arity
+    gate_call_arity(repo, res, {"pygom/model/stochastic_simulation.py", "pygom/model/simulate.py"})
     res.observe("SimulateOde._jump calls self._t0.tolist(): a python float initial time raises AttributeError (type-of-input issue, not gated)", ctx.jump, ctx.jump.node)
